@@ -328,16 +328,47 @@ pub struct ShapeCfg {
 }
 
 fn workload(depth: u8) {
-    // spans named s1..s3 with a field, then an event with two fields
+    // spans named s1..s3 with a field, then an event with two fields; from depth 2 on also an
+    // event whose parent is given explicitly (s1) while a deeper span is entered
     fn inner() {
         tracing::event!(name: "the_event", target: "tgt", tracing::Level::INFO, answer = 42, who = "wh\"o", "hello world");
+    }
+    fn xp(p: &tracing::Span) {
+        tracing::event!(name: "xp_event", target: "tgt", parent: p, tracing::Level::INFO, "explicit parent");
     }
     match depth {
         0 => inner(),
         1 => tracing::span!(tracing::Level::INFO, "s1", a = 1).in_scope(inner),
-        2 => tracing::span!(tracing::Level::INFO, "s1", a = 1).in_scope(|| tracing::span!(tracing::Level::INFO, "s2", b = "two").in_scope(inner)),
-        _ => tracing::span!(tracing::Level::INFO, "s1", a = 1)
-            .in_scope(|| tracing::span!(tracing::Level::INFO, "s2", b = "two").in_scope(|| tracing::span!(tracing::Level::INFO, "s3", c = true).in_scope(inner))),
+        2 => {
+            let s1 = tracing::span!(tracing::Level::INFO, "s1", a = 1);
+            s1.in_scope(|| {
+                tracing::span!(tracing::Level::INFO, "s2", b = "two").in_scope(|| {
+                    inner();
+                    xp(&s1)
+                })
+            })
+        }
+        _ => {
+            let s1 = tracing::span!(tracing::Level::INFO, "s1", a = 1);
+            s1.in_scope(|| {
+                tracing::span!(tracing::Level::INFO, "s2", b = "two").in_scope(|| {
+                    tracing::span!(tracing::Level::INFO, "s3", c = true).in_scope(|| {
+                        inner();
+                        xp(&s1)
+                    })
+                })
+            })
+        }
+    }
+}
+
+/// how a format prints span field k (name and value)
+fn span_field_needle(format: u8, k: usize) -> String {
+    let (f, v) = [("a", "1"), ("b", "\"two\""), ("c", "true")][k];
+    match format {
+        2 => format!("{}: {}", f, v),
+        3 => format!("\"{}\":{}", f, v),
+        _ => format!("{}={}", f, v),
     }
 }
 
@@ -412,7 +443,7 @@ fn check_shape(c: &ShapeCfg) -> (u64, Vec<String>) {
     let mut bad = vec![];
     // expected records: span lifecycle points for each of `depth` spans + 1 event
     let per_span = (c.span_events & 1 != 0) as usize + (c.span_events & 2 != 0) as usize + (c.span_events & 4 != 0) as usize + (c.span_events & 8 != 0) as usize;
-    let expected_records = per_span * c.depth as usize + 1;
+    let expected_records = per_span * c.depth as usize + 1 + usize::from(c.depth >= 2);
     let makes: Vec<&WEv> = log.iter().filter(|e| e.kind == "make_for" || e.kind == "make").collect();
     let writes: Vec<&WEv> = log.iter().filter(|e| e.kind == "write").collect();
     if makes.len() != expected_records || writes.len() != expected_records {
@@ -492,6 +523,33 @@ fn check_shape(c: &ShapeCfg) -> (u64, Vec<String>) {
                 let ordered = if c.format == 2 { positions.windows(2).all(|w| w[0] > w[1]) } else { positions.windows(2).all(|w| w[0] < w[1]) };
                 if !ordered {
                     bad.push(format!("spans in scope are not listed in nesting order: {:?}", rec));
+                }
+            }
+        }
+    }
+    // span lifecycle records and the explicitly parented event: the spans in THEIR scope with fields
+    for (i, e) in log.iter().enumerate() {
+        if e.kind != "make_for" {
+            continue;
+        }
+        let Some(rec) = log[i + 1..].iter().find(|x| x.kind == "write").map(|x| strip_ansi(&x.data)) else { continue };
+        let name = e.data.rsplit(' ').next().unwrap_or("");
+        let in_scope: Option<usize> = match name {
+            "s1" => Some(1),
+            "s2" => Some(2),
+            "s3" => Some(3),
+            "xp_event" => Some(1),
+            _ => None,
+        };
+        if let Some(n) = in_scope {
+            for k in 0..3usize.min(c.depth as usize) {
+                let needle = span_field_needle(c.format, k);
+                let present = rec.replace(": \"", ":\"").contains(&needle) || rec.contains(&needle);
+                if k < n && !present {
+                    bad.push(format!("the record of {} lacks {} of the span in its scope: {:?}", name, needle, rec));
+                }
+                if name == "xp_event" && k >= n && present {
+                    bad.push(format!("the record of the event whose explicit parent is s1 lists {} of a span that is not in its scope: {:?}", needle, rec));
                 }
             }
         }
